@@ -328,7 +328,7 @@ Proof.
   - destruct Sh as (H1 & H2 & H3). cbn [n_children] in H3. subst cs. cbn [BTreeModel.copy_node fst].
     destruct (leaf_cap_bounds maxCap stepRaw blockCount ic (length ks) ltac:(lia) ltac:(lia) ltac:(unfold n_count in *; cbn [n_items n_cap] in *; lia)) as [A B].
     split; [|reflexivity]. cbn [BTreeBase.shape]. unfold n_count. cbn [n_items n_cap n_children]. auto.
-  - destruct Sh as (H1 & H2 & L & F). cbn [n_children n_items n_cap] in *. unfold n_count in *. cbn [n_items] in *.
+  - destruct Sh as (H1 & H2 & L & F & Cpx). cbn [n_children n_items n_cap] in *. unfold n_count in *. cbn [n_items] in *.
     destruct cs as [|c0 cs0]; [simpl in L; lia|]. set (cs := c0 :: cs0) in *.
     assert (G : forall l acc i, Forall (shape maxCap d) l ->
       exists l' i', fold_left (fun acc ch => let '(l0, i0) := acc in let '(ch', i1) := copy_node i0 ch in (l0 ++ [ch'], i1)) l (acc, i) = (acc ++ l', i') /\
